@@ -247,6 +247,12 @@ void copy_case(unsigned ci, size_t srcLen, size_t start, unsigned backend, unsig
 	uint64_t s = seed * 0x9E3779B97F4A7C15ULL + 1;
 	for (auto& b : full) { s ^= s << 13; s ^= s >> 7; s ^= s << 17; b = uint8_t(s >> 16); }
 	if (start > srcLen) start = srcLen;
+	// content that a transfer loop might mistake for something else: the byte at the start and at every multiple of the chunk size (counted from the
+	// start position) is 0xFF (== EOF as a char) or 0x00; the tail, or everything, is zero / 0xFF (a block a writer might "skip")
+	{ unsigned cc = unsigned(seed >> 5) % 8; size_t chunk = chunkSizes[ci % (sizeof chunkSizes / sizeof chunkSizes[0])];
+	  if (cc == 1 || cc == 2) for (size_t k = pre + start; k < pre + srcLen; k += chunk) full[k] = cc == 1 ? 0xFF : 0x00;
+	  if (cc == 3 && srcLen) std::fill(full.begin() + long(pre + srcLen - std::min<size_t>(srcLen, 4096 + (seed % 5000))), full.begin() + long(pre + srcLen), uint8_t(0));
+	  if (cc == 4) std::fill(full.begin() + long(pre), full.begin() + long(pre + srcLen), uint8_t(seed & 1 ? 0xFF : 0x00)); }
 	std::vector<uint8_t> expect(full.begin() + pre + start, full.begin() + pre + srcLen);
 	uint8_t* heap = static_cast<uint8_t*>(malloc(full.size() ? full.size() : 1));
 	struct F { uint8_t* p; ~F() { free(p); } } g{heap};
@@ -354,6 +360,7 @@ void fam_filewriter(Tape& t, Stats& st) {
 	if (t.below(6) == 0) data = t.expand(t.pick<uint32_t>({4095, 4096, 4097, 8191, 8192, 8193, 65536, 70001}));     // beyond one stream buffer
 	if (t.below(8) == 0) old = t.expand(t.pick<uint32_t>({4096, 8192, 8193, 20000}));
 	unsigned how = unsigned(t.below(5));
+	if (data.size() >= 4096 && (data[0] & 3) == 0) { size_t z = data[1] & 1 ? data.size() : std::min<size_t>(data.size(), 4096 + data[2] * 16); std::fill(data.end() - long(z), data.end(), uint8_t(data[3] & 1 ? 0xFF : 0x00)); st.cls("fw:data_ends_in_a_block_of_one_value"); }
 	filewriter_case(flags, exists, old, data, st, how);
 	st.cls("fw:how" + std::to_string(how));
 	st.cls("fam:filewriter");
